@@ -107,29 +107,21 @@ type vfCase struct {
 	mode  int
 }
 
-var vfDbg = false
-
-func vfDbgPair(mode, i, j int) (uint8, uint8) {
-	if mode == vfNt {
-		if i%2 == 1 {
-			return "data"[j%4], 'c'
-		}
-		return "DATA"[j%4], 'C'
-	}
-	if i == 0 && j == 0 {
-		return 'E', 'Q'
-	}
-	if i%2 == 1 {
-		return "endgap"[j%6], 'l'
-	}
-	return "ENDGAP"[j%6], 'L'
-}
+// Letter-case policies. The Nexus, Clustal and Stockholm lexers call strings.ToUpper on every
+// token, whose copy loop branches on the case of every byte: a token of L mixed-case symbolic
+// letters costs 2^L paths. Long rows are therefore case-uniform per row (both cases occur, in
+// different rows / variants); mixed case inside a row is checked on short rows.
+const (
+	csMixed = 0 // every residue in either case
+	csUpper = 1 // row i upper case for even i, lower case for odd i
+	csLower = 2 // row i lower case for even i, upper case for odd i
+)
 
 // vfBuild builds an n x L alignment with symbolic residues of the given mode. In protein mode the
-// residue (0,0) is a protein-only letter (a fixed position keeps every path-condition conjunct
-// over one byte, which the engine decides without the solver); the alphabet is set by
-// construction and cross-checked against goalign's own detection in vfSame.
-func vfBuild(n, L, mode int, syms bool, rot int) vfCase {
+// residue (0,0) is a protein-only letter (a fixed position keeps every assumption over one byte,
+// which the engine decides without the solver); the alphabet is set by construction and
+// cross-checked against goalign's own detection in vfSame.
+func vfBuild(n, L, mode int, syms bool, rot, cs int) vfCase {
 	names := vfNames(n, rot)
 	var al align.Alignment
 	if mode == vfNt {
@@ -142,16 +134,17 @@ func vfBuild(n, L, mode int, syms bool, rot int) vfCase {
 		s := make([]uint8, L)
 		for j := range s {
 			c := nondetByte()
-			if vfDbg {
-				a, b := vfDbgPair(mode, i, j)
-				c = a
-				if nondetBool() {
-					c = b
-				}
-			} else if mode == vfAa && i == 0 && j == 0 {
+			if mode == vfAa && i == 0 && j == 0 {
 				assume(vfAaOnly(c))
 			} else {
 				assume(vfResidueOK(c, mode, syms))
+			}
+			if cs != csMixed {
+				if (i+cs)%2 == 1 {
+					assume(c < 'a' || c > 'z')
+				} else {
+					assume(c < 'A' || c > 'Z')
+				}
 			}
 			s[j] = c
 		}
@@ -202,51 +195,56 @@ func vfSame(c vfCase, got align.Alignment, err error) {
 	}
 }
 
-// vfSlowReader hands the written text to the parser one byte per Read call (like
-// testing/iotest.OneByteReader). Every goalign parser takes an io.Reader and wraps it in a
-// bufio.Reader, so this is an admissible input source; it is used instead of strings.Reader
-// because with more than 3 unread bytes in the bufio buffer the engine merges the (infeasible)
-// multi-byte arm of bufio.Reader.ReadRune into a symbolic read offset, which makes every later
-// buffer access a solver query over all residues.
-type vfSlowReader struct {
-	s string
-	i int
+func vfReader(w string) io.Reader { return strings.NewReader(w) }
+
+// vfShape: rows x columns of one case.
+type vfShape struct{ n, L int }
+
+// vfChoose picks a shape and its variant. Short rows (L <= 11) are run in every combination of
+// alphabet family (and case policy when cased); long rows in one combination derived from the
+// shape (unless full), because the cost of a case grows with (n*L)^2 while family and case do not
+// interact with line wrapping. The name rotation is derived from the shape.
+func vfChoose(shapes []vfShape, cased, full bool) (n, L, mode, rot, cs int) {
+	sh := shapes[nondetRange(0, len(shapes)-1)]
+	n, L = sh.n, sh.L
+	rot = (n + L) % len(vfPool)
+	if full {
+		rot = nondetRange(0, len(vfPool)-1)
+	}
+	if L <= 11 || full {
+		mode = nondetRange(vfNt, vfAa)
+		if cased {
+			cs = nondetRange(csUpper, csLower)
+		}
+	} else {
+		mode = (n + L) % 2
+		if cased {
+			cs = csUpper + L%2
+		}
+	}
+	return
 }
 
-func (r *vfSlowReader) Read(p []byte) (int, error) {
-	if r.i >= len(r.s) {
-		return 0, io.EOF
+// vfGrid: all shapes n in 1..maxn x L in Ls.
+func vfGrid(maxn int, Ls []int) []vfShape {
+	var out []vfShape
+	for n := 1; n <= maxn; n++ {
+		for _, L := range Ls {
+			out = append(out, vfShape{n, L})
+		}
 	}
-	if len(p) == 0 {
-		return 0, nil
-	}
-	p[0] = r.s[r.i]
-	r.i++
-	return 1, nil
+	return out
 }
 
-var vfSlow = false
-
-func vfReader(w string) io.Reader {
-	if vfSlow {
-		return &vfSlowReader{s: w}
-	}
-	return strings.NewReader(w)
-}
-
-// vfPick returns one element of a concrete list (one case per element).
 func vfPick(list []int) int { return list[nondetRange(0, len(list)-1)] }
 
 var vfFullL = []int{1, 2, 3, 9, 10, 11, 49, 50, 51, 59, 60, 61, 79, 80, 81, 119, 120, 121}
 
 // ------------------------------------------------------------------ FASTA
 
-func vfFasta(maxn int, Ls []int, syms bool, nrot int) {
-	n := nondetRange(1, maxn)
-	L := vfPick(Ls)
-	mode := nondetRange(vfNt, vfAa)
-	rot := nondetRange(0, nrot-1)
-	c := vfBuild(n, L, mode, syms, rot)
+func vfFasta(shapes []vfShape, syms, full bool) {
+	n, L, mode, rot, _ := vfChoose(shapes, false, full)
+	c := vfBuild(n, L, mode, syms, rot, csMixed)
 	w := fasta.WriteAlignment(c.al)
 	got, err := fasta.NewParser(vfReader(w)).Parse()
 	verifReach("fasta round trip")
@@ -254,78 +252,78 @@ func vfFasta(maxn int, Ls []int, syms bool, nrot int) {
 }
 
 // H_C02_fasta: FASTA writer -> parser is the identity (letters only; lines wrap at 80).
-// bounds: rows n in 1..2, L in {1,79,80,81}, residues = any letter of the nucleotide family or of the protein family (see package comment), both cases; 2 name rotations of the pool {s1,12,Seq_B,Name.10chr}
-// outside: other lengths (thorough twin), symbols - * ? (H_C02_fasta_syms), names outside the pool, alignments mixing nucleotide-only and protein-only letters
-func H_C02_fasta() { vfFasta(2, []int{1, 79, 80, 81}, false, 2) }
+// bounds: shapes n x L in {1x1, 2x1, 2x2, 1x80, 1x81, 2x81}; residues = any letter of the nucleotide family or of the protein family (see package comment) in either case at every position; short shapes in both families, long ones in one; names from the pool {s1,12,Seq_B,Name.10chr}
+// outside: other lengths (thorough twin), symbols - * ? (H_C02_fasta_syms), names outside the pool (H_C02_names_*), alignments mixing nucleotide-only and protein-only letters (no well-defined alphabet)
+func H_C02_fasta() { vfFasta([]vfShape{{1, 1}, {2, 1}, {2, 2}, {1, 80}, {1, 81}, {2, 81}}, false, false) }
 
 // H_C02_fasta_syms: same with the symbols - * ? allowed at every position.
-// bounds: n in 1..2, L in {1,2,81}, residues = letters of the family or - * ?
+// bounds: shapes {1x1, 2x2, 1x81}; residues = letters of the family or - * ?
 // outside: other lengths
-func H_C02_fasta_syms() { vfFasta(2, []int{1, 2, 81}, true, 1) }
+func H_C02_fasta_syms() { vfFasta([]vfShape{{1, 1}, {2, 2}, {1, 81}}, true, false) }
 
 // H_C02_fasta_thorough: full length list and three rows.
-// bounds: n in 1..3, L in {1,2,3,9,10,11,49,50,51,59,60,61,79,80,81,119,120,121} plus 160,161, letters and symbols, 4 name rotations
+// bounds: n in 1..3, L in {1,2,3,9,10,11,49,50,51,59,60,61,79,80,81,119,120,121,160,161}, letters and symbols, both families, 4 name rotations
 // outside: L > 161, n > 3
 //verif: tier=thorough
-func H_C02_fasta_thorough() { vfFasta(3, append(append([]int{}, vfFullL...), 160, 161), true, 4) }
+func H_C02_fasta_thorough() {
+	vfFasta(vfGrid(3, append(append([]int{}, vfFullL...), 160, 161)), true, true)
+}
 
 // ------------------------------------------------------------------ Phylip
 
 // vfPhylip: opts is the list of writer option combinations (bit 0 strict, bit 1 oneline, bit 2 noblock);
 // the parser is given the same strictness as the writer.
-func vfPhylip(maxn int, Ls []int, syms bool, nrot int, opts []int) {
-	n := nondetRange(1, maxn)
-	L := vfPick(Ls)
-	mode := nondetRange(vfNt, vfAa)
-	rot := nondetRange(0, nrot-1)
+func vfPhylip(shapes []vfShape, syms, full bool, opts []int) {
+	n, L, mode, rot, _ := vfChoose(shapes, false, full)
 	opt := vfPick(opts)
 	strict, oneline, noblock := opt&1 != 0, opt&2 != 0, opt&4 != 0
-	c := vfBuild(n, L, mode, syms, rot)
+	c := vfBuild(n, L, mode, syms, rot, csMixed)
 	w := phylip.WriteAlignment(c.al, strict, oneline, noblock)
 	got, err := phylip.NewParser(vfReader(w), strict).Parse()
 	verifReach("phylip round trip")
 	vfSame(c, got, err)
 }
 
+var vfPhylipShapes = []vfShape{{1, 1}, {2, 1}, {2, 10}, {2, 11}, {1, 60}, {1, 61}, {2, 61}}
+
 // H_C02_phylip_relaxed: relaxed Phylip (name, two blanks, sequence), the 4 oneline/noblock combinations.
-// bounds: n in 1..2, L in {1,10,11,60,61}, letters of either family in both cases, 2 name rotations, writer options strict=false x oneline x noblock, parser strict=false
+// bounds: shapes {1x1, 2x1, 2x10, 2x11, 1x60, 1x61, 2x61} (blocks of 10, lines of 60); letters of either family in either case; writer options strict=false x oneline x noblock, parser strict=false
 // outside: other lengths (thorough twin), symbols (H_C02_phylip_syms), names with blanks (not representable)
-func H_C02_phylip_relaxed() { vfPhylip(2, []int{1, 10, 11, 60, 61}, false, 2, []int{0, 2, 4, 6}) }
+func H_C02_phylip_relaxed() { vfPhylip(vfPhylipShapes, false, false, []int{0, 2, 4, 6}) }
 
 // H_C02_phylip_strict: strict Phylip (names padded/cut to 10 columns), the 4 oneline/noblock combinations.
-// bounds: n in 1..2, L in {1,10,11,60,61}, letters of either family, 2 name rotations (pool names are <= 10 characters, one is exactly 10), writer strict=true x oneline x noblock, parser strict=true
+// bounds: same shapes; pool names are <= 10 characters, one is exactly 10; writer strict=true x oneline x noblock, parser strict=true
 // outside: names longer than 10 characters (truncated by design, not representable), other lengths
-func H_C02_phylip_strict() { vfPhylip(2, []int{1, 10, 11, 60, 61}, false, 2, []int{1, 3, 5, 7}) }
+func H_C02_phylip_strict() { vfPhylip(vfPhylipShapes, false, false, []int{1, 3, 5, 7}) }
 
 // H_C02_phylip_syms: symbols - * ? allowed (a block that starts with '-' takes strconv.ParseInt's sign path in the lexer).
-// bounds: n in 1..2, L in {1,2,11}, letters or - * ?, all 8 option combinations
+// bounds: shapes {1x1, 2x2, 1x11}; letters or - * ?; all 8 option combinations
 // outside: longer rows with symbols
-func H_C02_phylip_syms() { vfPhylip(2, []int{1, 2, 11}, true, 1, []int{0, 1, 2, 3, 4, 5, 6, 7}) }
+func H_C02_phylip_syms() {
+	vfPhylip([]vfShape{{1, 1}, {2, 2}, {1, 11}}, true, false, []int{0, 1, 2, 3, 4, 5, 6, 7})
+}
 
 // H_C02_phylip_thorough: full length list, three rows, all 8 option combinations.
-// bounds: n in 1..3, L in the full list {1,2,3,9,10,11,49,50,51,59,60,61,79,80,81,119,120,121}, letters of either family, 4 name rotations, 8 option combinations
+// bounds: n in 1..3, L in the full list {1,2,3,9,10,11,49,50,51,59,60,61,79,80,81,119,120,121}, letters and symbols, both families, 4 name rotations, 8 option combinations
 // outside: L > 121
 //verif: tier=thorough
-func H_C02_phylip_thorough() { vfPhylip(3, vfFullL, false, 4, []int{0, 1, 2, 3, 4, 5, 6, 7}) }
+func H_C02_phylip_thorough() { vfPhylip(vfGrid(3, vfFullL), true, true, []int{0, 1, 2, 3, 4, 5, 6, 7}) }
 
-// vfShape: rows and columns of one alignment of a multi-alignment stream.
-type vfShape struct{ n, L int }
-
-var vfShapes = []vfShape{{1, 2}, {2, 61}, {2, 11}}
+var vfStreamShapes = []vfShape{{1, 2}, {1, 61}, {2, 11}}
 
 // H_C02_phylip_multi: a stream of 2..3 Phylip alignments written one after the other parses back,
 // through ParseMultiple, to exactly that list.
-// bounds: k in 2..3 alignments with shapes taken in rotation from {1x2, 2x61, 2x11} (3 rotations), alternating nucleotide/protein, letters only, strict in {false,true}, default block layout
+// bounds: k in 2..3 alignments with shapes taken in rotation from {1x2, 1x61, 2x11} (3 rotations), alternating nucleotide/protein, letters only, strict in {false,true}, default block layout
 // outside: more than 3 alignments, other shapes, oneline/noblock layouts in a stream
 func H_C02_phylip_multi() {
 	k := nondetRange(2, 3)
-	r := nondetRange(0, len(vfShapes)-1)
+	r := nondetRange(0, len(vfStreamShapes)-1)
 	strict := nondetRange(0, 1) == 1
 	cases := make([]vfCase, k)
 	w := ""
 	for a := 0; a < k; a++ {
-		sh := vfShapes[(r+a)%len(vfShapes)]
-		cases[a] = vfBuild(sh.n, sh.L, a%2, false, a)
+		sh := vfStreamShapes[(r+a)%len(vfStreamShapes)]
+		cases[a] = vfBuild(sh.n, sh.L, a%2, false, a, csMixed)
 		w += phylip.WriteAlignment(cases[a].al, strict, false, false)
 	}
 	ch := &align.AlignChannel{Achan: make(chan align.Alignment, 15)}
@@ -363,20 +361,22 @@ func vfIsWordCI(row []uint8, kw string) bool {
 	return eq
 }
 
-func vfNexus(maxn int, Ls []int, syms bool, nrot int, exclKeywords bool) {
-	n := nondetRange(1, maxn)
-	L := vfPick(Ls)
-	mode := nondetRange(vfNt, vfAa)
-	rot := nondetRange(0, nrot-1)
-	c := vfBuild(n, L, mode, syms, rot)
-	if exclKeywords {
-		for i := 0; i < n; i++ {
-			for _, kw := range vfNexusKeywords {
-				if len(kw) == L {
-					assume(!vfIsWordCI(c.orig[i], kw))
-				}
+// vfNoKeywordRow restricts the case to rows that do not spell a Nexus lexer keyword.
+func vfNoKeywordRow(c vfCase) {
+	for i := range c.orig {
+		for _, kw := range vfNexusKeywords {
+			if len(kw) == c.L {
+				assume(!vfIsWordCI(c.orig[i], kw))
 			}
 		}
+	}
+}
+
+func vfNexus(shapes []vfShape, syms, full, mixed, exclKeywords bool) {
+	n, L, mode, rot, cs := vfChoose(shapes, !mixed, full)
+	c := vfBuild(n, L, mode, syms, rot, cs)
+	if exclKeywords {
+		vfNoKeywordRow(c)
 	}
 	w := nexus.WriteAlignment(c.al)
 	got, err := nexus.NewParser(vfReader(w)).Parse()
@@ -384,60 +384,54 @@ func vfNexus(maxn int, Ls []int, syms bool, nrot int, exclKeywords bool) {
 	vfSame(c, got, err)
 }
 
-// H_C02_nexus: Nexus writer -> parser is the identity (the writer does not wrap; lengths cover the lexer's keyword lengths 3..5).
-// bounds: n in 1..2, L in {1,3,4,5}, letters of either family in both cases, 2 name rotations
-// outside: other lengths (thorough twin), symbols (H_C02_nexus_syms), names that are Nexus keywords or contain [ ] ; = blanks
-func H_C02_nexus() { vfNexus(2, []int{1, 3, 4, 5}, false, 2, false) }
+// H_C02_nexus: Nexus writer -> parser is the identity (the writer does not wrap; the lengths are the lexer's keyword lengths 3..5).
+// bounds: shapes {1x1, 2x3, 2x4, 2x5}; letters of either family; every row in one case (upper or lower, alternating between rows, both starts)
+// outside: other lengths (thorough twin), mixed case inside a row (H_C02_nexus_mixed), symbols (H_C02_nexus_syms), names that are Nexus keywords or contain [ ] ; = blanks
+func H_C02_nexus() { vfNexus([]vfShape{{1, 1}, {2, 3}, {2, 4}, {2, 5}}, false, false, false, false) }
 
-// H_C02_nexus_nokw: as H_C02_nexus, with the rows that spell a lexer keyword excluded (second variant: shows that
-// the keyword collision is the only defect in these bounds and keeps the remaining region checked).
-// bounds: as H_C02_nexus plus L in {2,6,61}; assumes no row equals, case-insensitively, one of the 17 keywords of nexus_lexer.go
+// H_C02_nexus_nokw: as H_C02_nexus plus longer rows, with the rows that spell a lexer keyword excluded (second
+// variant: the keyword collision of H_C02_nexus is the only defect in these bounds, the rest stays checked).
+// bounds: shapes {1x1, 2x2, 2x3, 2x4, 2x5, 2x6, 1x61}; assumes no row equals, case-insensitively, one of the 17 keywords of nexus_lexer.go
 // outside: rows that spell a keyword (covered, and failing, in H_C02_nexus)
 // assumes: the keyword list of io/nexus/nexus_lexer.go scanIdent
-func H_C02_nexus_nokw() { vfNexus(2, []int{1, 2, 3, 4, 5, 6, 61}, false, 2, true) }
+func H_C02_nexus_nokw() {
+	vfNexus([]vfShape{{1, 1}, {2, 2}, {2, 3}, {2, 4}, {2, 5}, {2, 6}, {1, 61}}, false, false, false, true)
+}
+
+// H_C02_nexus_mixed: mixed case inside a row (short rows: the lexer's ToUpper forks on every letter's case).
+// bounds: shapes {1x1, 1x3, 2x2}; letters of either family, any case at every position; keyword rows excluded
+// outside: longer mixed-case rows
+func H_C02_nexus_mixed() { vfNexus([]vfShape{{1, 1}, {1, 3}, {2, 2}}, false, false, true, true) }
 
 // H_C02_nexus_syms: symbols - * ? allowed (* is Nexus' default missing character, - the gap).
-// bounds: n in 1..2, L in {1,2,3}, letters or - * ?, keyword rows excluded
+// bounds: shapes {1x1, 2x2, 1x3}; letters (row-uniform case) or - * ?; keyword rows excluded
 // outside: longer rows with symbols
-func H_C02_nexus_syms() { vfNexus(2, []int{1, 2, 3}, true, 1, true) }
+func H_C02_nexus_syms() { vfNexus([]vfShape{{1, 1}, {2, 2}, {1, 3}}, true, false, false, true) }
 
-// H_C02_nexus_thorough: every length 1..11 (all keyword lengths) and the long ones, three rows.
-// bounds: n in 1..3, L in {1..11, 60, 61, 121}, letters and symbols, 4 name rotations
+var vfNexusThoroughL = []int{1, 2, 3, 4, 5, 6, 7, 8, 9, 10, 11, 60, 61, 121}
+
+// H_C02_nexus_thorough: every length 1..11 (all keyword lengths) and long rows, three rows.
+// bounds: n in 1..3, L in {1..11, 60, 61, 121}, letters (row-uniform case) and symbols, both families, 4 name rotations
 //verif: tier=thorough
-func H_C02_nexus_thorough() {
-	vfNexus(3, []int{1, 2, 3, 4, 5, 6, 7, 8, 9, 10, 11, 60, 61, 121}, true, 4, false)
-}
+func H_C02_nexus_thorough() { vfNexus(vfGrid(3, vfNexusThoroughL), true, true, false, false) }
 
 // H_C02_nexus_nokw_thorough: thorough twin of H_C02_nexus_nokw.
-// bounds: n in 1..3, L in {1..11, 60, 61, 121}, letters and symbols, keyword rows excluded
+// bounds: as H_C02_nexus_thorough, keyword rows excluded
 //verif: tier=thorough
-func H_C02_nexus_nokw_thorough() {
-	vfNexus(3, []int{1, 2, 3, 4, 5, 6, 7, 8, 9, 10, 11, 60, 61, 121}, true, 4, true)
-}
+func H_C02_nexus_nokw_thorough() { vfNexus(vfGrid(3, vfNexusThoroughL), true, true, false, true) }
 
 // ------------------------------------------------------------------ Clustal
 
-// vfClustal: caseSplit restricts row i to upper case (i even) / lower case (i odd) letters, so that
-// no column is "identical" and the conservation line (which depends on the residues) is the same
-// on all paths; without it every column forks on the conservation symbol.
-func vfClustal(minn, maxn int, Ls []int, modes []int, syms bool, nrot int, caseSplit bool) {
-	n := nondetRange(minn, maxn)
-	L := vfPick(Ls)
-	mode := vfPick(modes)
-	rot := nondetRange(0, nrot-1)
-	c := vfBuild(n, L, mode, syms, rot)
-	if caseSplit {
-		for i := 0; i < n; i++ {
-			for j := 0; j < L; j++ {
-				r := c.orig[i][j]
-				if i%2 == 0 {
-					assume(r >= 'A' && r <= 'Z')
-				} else {
-					assume(r >= 'a' && r <= 'z')
-				}
-			}
-		}
+// The Clustal writer adds a conservation line computed from the residues (* identical column,
+// : . conserved amino-acid groups): with several rows of unrestricted residues every column forks
+// on that symbol. Rows alternate upper/lower case in the long shapes, so nucleotide columns are
+// never identical; data-dependent conservation is checked on short rows (H_C02_clustal_cons).
+func vfClustal(shapes []vfShape, syms, full, mixed bool, modes []int) {
+	n, L, mode, rot, cs := vfChoose(shapes, !mixed, full)
+	if len(modes) == 1 {
+		mode = modes[0]
 	}
+	c := vfBuild(n, L, mode, syms, rot, cs)
 	w := clustal.WriteAlignment(c.al)
 	got, err := clustal.NewParser(vfReader(w)).Parse()
 	verifReach("clustal round trip")
@@ -445,50 +439,46 @@ func vfClustal(minn, maxn int, Ls []int, modes []int, syms bool, nrot int, caseS
 }
 
 // H_C02_clustal: Clustal writer -> parser is the identity, one row (blocks of 50 columns).
-// bounds: n = 1, L in {1,50,51,101}, letters of either family in both cases, 2 name rotations
-// outside: more rows (H_C02_clustal_rows, H_C02_clustal_cons), symbols (H_C02_clustal_syms)
-func H_C02_clustal() { vfClustal(1, 1, []int{1, 50, 51, 101}, []int{vfNt, vfAa}, false, 2, false) }
+// bounds: shapes {1x1, 1x2, 1x50, 1x51, 1x101}; letters of either family, the row in one case (upper or lower)
+// outside: more rows (H_C02_clustal_rows, H_C02_clustal_cons), mixed case and symbols (H_C02_clustal_syms)
+func H_C02_clustal() {
+	vfClustal([]vfShape{{1, 1}, {1, 2}, {1, 50}, {1, 51}, {1, 101}}, false, false, false, []int{vfNt, vfAa})
+}
 
-// H_C02_clustal_rows: several rows across block boundaries; nucleotides, rows alternate upper/lower case.
-// bounds: n in 2..3, L in {1,50,51}, nucleotide family, row i upper case for even i and lower case for odd i (so the conservation line is blank in every column)
-// outside: columns with identical residues and protein conservation groups (H_C02_clustal_cons, small L)
-func H_C02_clustal_rows() { vfClustal(2, 3, []int{1, 50, 51}, []int{vfNt}, false, 2, true) }
+// H_C02_clustal_rows: several rows across a block boundary; nucleotides, rows alternate upper/lower case.
+// bounds: shapes {2x1, 3x2, 2x50, 2x51}; nucleotide family; row i and row i+1 in different cases (so no column is identical)
+// outside: identical columns and protein conservation groups (H_C02_clustal_cons, short rows)
+func H_C02_clustal_rows() {
+	vfClustal([]vfShape{{2, 1}, {3, 2}, {2, 50}, {2, 51}}, false, false, false, []int{vfNt})
+}
 
 // H_C02_clustal_cons: two rows, unrestricted residues: the conservation line (* : . blank) varies with the data.
-// bounds: n = 2, L in {1,2}, letters of either family in both cases
-// outside: longer rows (path count grows as 4^L)
-func H_C02_clustal_cons() { vfClustal(2, 2, []int{1, 2}, []int{vfNt, vfAa}, false, 1, false) }
+// bounds: shapes {2x1, 2x2}; letters of either family in either case at every position
+// outside: longer rows (the path count grows as 4^L)
+func H_C02_clustal_cons() { vfClustal([]vfShape{{2, 1}, {2, 2}}, false, false, true, []int{vfNt, vfAa}) }
 
-// H_C02_clustal_syms: symbols - * ? allowed.
-// bounds: n in 1..2, L in {1,2} (n=2) and {1,2,51} (n=1): see body; letters or - * ?
+// H_C02_clustal_syms: symbols - * ? and mixed case in one row.
+// bounds: shapes {1x1, 1x2, 1x3}; letters in either case or - * ?
 // outside: longer rows with symbols
 func H_C02_clustal_syms() {
-	if nondetRange(0, 1) == 0 {
-		vfClustal(1, 1, []int{1, 2, 51}, []int{vfNt, vfAa}, true, 1, false)
-	} else {
-		vfClustal(2, 2, []int{1, 2}, []int{vfNt}, true, 1, false)
-	}
+	vfClustal([]vfShape{{1, 1}, {1, 2}, {1, 3}}, true, false, true, []int{vfNt, vfAa})
 }
 
-// H_C02_clustal_thorough: full length list.
-// bounds: n = 1 with L in the full list (both families, symbols), n in 2..3 with L in the full list (nucleotides, case-split rows)
+// H_C02_clustal_thorough: full length list, one row.
+// bounds: n = 1, L in the full list, both families, row-uniform case, symbols
 //verif: tier=thorough
-func H_C02_clustal_thorough() {
-	if nondetRange(0, 1) == 0 {
-		vfClustal(1, 1, vfFullL, []int{vfNt, vfAa}, true, 4, false)
-	} else {
-		vfClustal(2, 3, vfFullL, []int{vfNt}, false, 4, true)
-	}
-}
+func H_C02_clustal_thorough() { vfClustal(vfGrid(1, vfFullL), true, true, false, []int{vfNt, vfAa}) }
+
+// H_C02_clustal_rows_thorough: full length list, 2..3 rows of nucleotides in alternating case.
+// bounds: n in 2..3, L in the full list, nucleotide family, rows alternate upper/lower case
+//verif: tier=thorough
+func H_C02_clustal_rows_thorough() { vfClustal(vfGrid(3, vfFullL)[len(vfFullL):], false, true, false, []int{vfNt}) }
 
 // ------------------------------------------------------------------ Stockholm
 
-func vfStockholm(maxn int, Ls []int, syms bool, nrot int) {
-	n := nondetRange(1, maxn)
-	L := vfPick(Ls)
-	mode := nondetRange(vfNt, vfAa)
-	rot := nondetRange(0, nrot-1)
-	c := vfBuild(n, L, mode, syms, rot)
+func vfStockholm(shapes []vfShape, syms, full, mixed bool) {
+	n, L, mode, rot, cs := vfChoose(shapes, !mixed, full)
+	c := vfBuild(n, L, mode, syms, rot, cs)
 	w := stockholm.WriteAlignment(c.al)
 	got, err := stockholm.NewParser(vfReader(w)).Parse()
 	verifReach("stockholm round trip")
@@ -496,34 +486,33 @@ func vfStockholm(maxn int, Ls []int, syms bool, nrot int) {
 }
 
 // H_C02_stockholm: Stockholm writer -> parser is the identity (no wrapping; 9 = length of the lexer keyword STOCKHOLM).
-// bounds: n in 1..2, L in {1,2,9,61}, letters of either family in both cases, 2 name rotations
-// outside: symbols (H_C02_stockholm_syms), names starting with # or equal to //
-func H_C02_stockholm() { vfStockholm(2, []int{1, 2, 9, 61}, false, 2) }
+// bounds: shapes {1x1, 2x2, 2x9, 1x61}; letters of either family, every row in one case
+// outside: mixed case and symbols (H_C02_stockholm_syms), names starting with # or equal to //
+func H_C02_stockholm() { vfStockholm([]vfShape{{1, 1}, {2, 2}, {2, 9}, {1, 61}}, false, false, false) }
 
-// H_C02_stockholm_syms: symbols - * ? allowed.
-// bounds: n in 1..2, L in {1,2,3}, letters or - * ?
-func H_C02_stockholm_syms() { vfStockholm(2, []int{1, 2, 3}, true, 1) }
+// H_C02_stockholm_syms: symbols - * ? and mixed case.
+// bounds: shapes {1x1, 2x2, 1x3}; letters in either case or - * ?
+// outside: longer rows with symbols or mixed case
+func H_C02_stockholm_syms() { vfStockholm([]vfShape{{1, 1}, {2, 2}, {1, 3}}, true, false, true) }
 
 // H_C02_stockholm_thorough: full length list, three rows.
-// bounds: n in 1..3, L in the full list, letters and symbols, 4 name rotations
+// bounds: n in 1..3, L in the full list, letters (row-uniform case) and symbols, both families, 4 name rotations
 //verif: tier=thorough
-func H_C02_stockholm_thorough() { vfStockholm(3, vfFullL, true, 4) }
+func H_C02_stockholm_thorough() { vfStockholm(vfGrid(3, vfFullL), true, true, false) }
 
 // ------------------------------------------------------------------ auto-detection
 
 // H_C02_autodetect: ParseAlignmentAuto selects the format that was written and returns the alignment.
-// bounds: format in {fasta, nexus, clustal, phylip relaxed, phylip strict}, n in 1..2 (clustal: 1), L in {1,11}, letters of either family
+// bounds: format in {fasta, nexus, clustal, phylip relaxed, phylip strict}; shapes {1x1, 2x11} (clustal: 1x1, 1x11); letters of either family, row-uniform case; Nexus keyword rows excluded
 // outside: Stockholm (not auto-detected by design), longer alignments (covered per format)
 func H_C02_autodetect() {
 	f := nondetRange(0, 4)
-	maxn := 2
+	shapes := []vfShape{{1, 1}, {2, 11}}
 	if f == 2 {
-		maxn = 1
+		shapes = []vfShape{{1, 1}, {1, 11}}
 	}
-	n := nondetRange(1, maxn)
-	L := vfPick([]int{1, 11})
-	mode := nondetRange(vfNt, vfAa)
-	c := vfBuild(n, L, mode, false, 0)
+	n, L, mode, rot, cs := vfChoose(shapes, true, false)
+	c := vfBuild(n, L, mode, false, rot, cs)
 	var w string
 	want := 0
 	strict := false
@@ -531,14 +520,8 @@ func H_C02_autodetect() {
 	case 0:
 		w, want = fasta.WriteAlignment(c.al), align.FORMAT_FASTA
 	case 1:
+		vfNoKeywordRow(c) // known keyword collision, see H_C02_nexus
 		w, want = nexus.WriteAlignment(c.al), align.FORMAT_NEXUS
-		for i := 0; i < n; i++ { // known keyword collision, see H_C02_nexus
-			for _, kw := range vfNexusKeywords {
-				if len(kw) == L {
-					assume(!vfIsWordCI(c.orig[i], kw))
-				}
-			}
-		}
 	case 2:
 		w, want = clustal.WriteAlignment(c.al), align.FORMAT_CLUSTAL
 	case 3:
@@ -649,6 +632,4 @@ func H_C02_names_punct() { vfNamesRT(nondetRange(fFasta, fStockholm), 2, false) 
 // H_C02_dbg: scratch.
 // bounds: scratch
 // outside: scratch
-func H_C02_dbg() { vfFasta(1, []int{vfDbgL}, false, 1) }
-
-var vfDbgL = 40
+func H_C02_dbg() { vfClustal([]vfShape{{1, 21}}, false, false, false, []int{vfNt, vfAa}) }
